@@ -14,21 +14,22 @@ import (
 
 // Config carries the bounds of one harness run.
 type Config struct {
-	LoopBound     int // K: waves per loop instance
-	MaxDepth      int // D: call depth
-	MaxConcretize int // values enumerated when a concrete integer is required
-	MaxStrMerge   int // strings longer than this are merged only when identical
-	MaxPaths      int // total path budget (forks)
-	MaxSteps      int64
-	Merge         bool
-	PanicsAssume  bool // vp:panics=assume
-	Trace         bool
-	MapOrderFns   map[string]bool // functions in which map range order is nondeterministic
-	SymbolicLen   bool            // vpNondetString keeps a symbolic length instead of forking
-	TimeoutS      int             // wall-clock budget of one harness run
-	Races         bool            // log heap accesses of goroutines and report unsynchronised conflicting ones (goroutines.go)
-	TickingClock  bool            // with FixedClock: every reading is one microsecond later than the previous one
-	FixedClock    bool            // time.Now returns one fixed instant (harnesses whose logic depends on the clock only through offsets they choose)
+	LoopBound      int // K: waves per loop instance
+	MaxDepth       int // D: call depth
+	MaxConcretize  int // values enumerated when a concrete integer is required
+	MaxStrMerge    int // strings longer than this are merged only when identical
+	MaxPaths       int // total path budget (forks)
+	MaxSteps       int64
+	Merge          bool
+	PanicsAssume   bool // vp:panics=assume
+	Trace          bool
+	MapOrderFns    map[string]bool // functions in which map range order is nondeterministic
+	SymbolicLen    bool            // vpNondetString keeps a symbolic length instead of forking
+	TimeoutS       int             // wall-clock budget of one harness run
+	RealTokenCodec bool            // tokens.(de)serializeMacaroon are interpreted (base64 + macaroon binary format) instead of the ideal codec
+	Races          bool            // log heap accesses of goroutines and report unsynchronised conflicting ones (goroutines.go)
+	TickingClock   bool            // with FixedClock: every reading is one microsecond later than the previous one
+	FixedClock     bool            // time.Now returns one fixed instant (harnesses whose logic depends on the clock only through offsets they choose)
 }
 
 func DefaultConfig() Config {
@@ -51,34 +52,34 @@ type Stats struct {
 
 // Engine is one symbolic execution context (one harness run).
 type Engine struct {
-	prog          *ssa.Program
-	tb            *TB
-	solver        *Solver
-	cfg           Config
-	base          map[int]Value
-	nextObj       int
-	globals       map[*ssa.Global]int
-	pkgState      map[*ssa.Package]int
-	fninfo        map[*ssa.Function]*FnInfo
-	stats         Stats
-	rep           *Report
-	stack         []*ssa.Function
+	prog                         *ssa.Program
+	tb                           *TB
+	solver                       *Solver
+	cfg                          Config
+	base                         map[int]Value
+	nextObj                      int
+	globals                      map[*ssa.Global]int
+	pkgState                     map[*ssa.Package]int
+	fninfo                       map[*ssa.Function]*FnInfo
+	stats                        Stats
+	rep                          *Report
+	stack                        []*ssa.Function
 	curGo, curGoMark, racesFound int
-	raceSeen      map[string]bool
-	stubs         map[string]*ssa.Function
-	config        map[string]string
-	typeIDs       map[string]int
-	cryptoTabs    *cryptoState
-	j2            *j2State
-	funcObjs      map[*ssa.Function]int
-	lockHook      func(st *State, kind string, p *PtrV)
-	deadline      time.Time
-	uniqueTab     []uniqueEnt
-	cryptoCounter int
-	goCounter     int
-	initDepth     int // >0 while a package initialiser is being interpreted
-	progress      bool
-	lastTick      time.Time
+	raceSeen                     map[string]bool
+	stubs                        map[string]*ssa.Function
+	config                       map[string]string
+	typeIDs                      map[string]int
+	cryptoTabs                   *cryptoState
+	j2                           *j2State
+	funcObjs                     map[*ssa.Function]int
+	lockHook                     func(st *State, kind string, p *PtrV)
+	deadline                     time.Time
+	uniqueTab                    []uniqueEnt
+	cryptoCounter                int
+	goCounter                    int
+	initDepth                    int // >0 while a package initialiser is being interpreted
+	progress                     bool
+	lastTick                     time.Time
 }
 
 type abortErr struct {
